@@ -108,6 +108,12 @@ def run(ctx):
     for u in users[:5]:
         for caps in (0x0005, 0x0001, 0x00ff & ~0x08, rng.getrandbits(16) & ~0x0a00):
             add(hs320(u, caps=caps & ~0x200 & ~0x800, tail=progs.rand_bytes(rng)), u)
+    # a 4.1 response with CLIENT_SSL set although no TLS was configured/advertised: refused, no callback
+    for caps in (DEFAULT_CAPS | 0x800, 0x200 | 0x800, (rng.getrandbits(32) | 0xa00)):
+        i += 1
+        c = mk(ctx, "c11s_%d" % i, hs41(b"root", caps=caps), pipelined=1, tls=0)
+        c.meta["expect"] = dict(kind="bad")
+        cases.append(c)
     # malformed
     good = hs41(b"jon")
     for k in range(len(good)):
